@@ -1,11 +1,397 @@
 import StepModel.P21.Reader
 import StepModel.Generated.P21RWGen
-/-! # C03 — the reader never reports a violating file as clean: property theorems (see notes/C03.md) -/
+/-! # C03 — the reader never reports a violating file as clean: property theorems
+
+Statements are about the transliterated reader `P21.Reader` for **every** dictionary, byte sequence and configuration
+of the behaviour switches (no bound on sizes).  The chain proved here is the severity plumbing of the statement:
+
+  attribute reader reports `sev`  →  `SDAI_Application_instance::STEPread` returns at least `sev`
+  (`C03_attribute_error_reaches_instance`, `C03_instance_severity_never_improves`, arity theorems)
+  →  `ReadInstance` hands it to `AppendEntityErrorMsg` (ghost log `reported`)  →  the file's severity is worse than a
+  user message and p21read's exit rule gives 1 (`C03_reported_error_fails_file` and the three counter theorems).
+
+What is *not* proved (tied by correspondence only, see notes/C03.md): that each violation class makes the responsible
+literal/aggregate/select reader report a severity worse than USERMSG (per-literal facts are property C09's theorems),
+and the confinement clause (resynchronisation at the next `#`).
+-/
 namespace StepModel.P21.C03
 open StepModel StepModel.P21
 
 /-- p21read exits non-zero exactly when the severity is worse than a user message -/
 theorem C03_exit_iff_worse_than_usermsg (e : Sev) : exitStatus e = 1 ↔ e.toInt < Sev.usermsg.toInt := by
   cases e <;> decide
+
+theorem greater_le_left (a b : Sev) : (a.greater b).toInt ≤ a.toInt := by
+  cases a <;> cases b <;> decide
+theorem greater_le_right (a b : Sev) : (a.greater b).toInt ≤ b.toInt := by
+  cases a <;> cases b <;> decide
+theorem cri_sev_le (lex : LexCfg) (d : Option (List Byte)) (s : IStream) (e : Sev) :
+    (checkRemainingInput lex d s e).2.toInt ≤ e.toInt := by
+  unfold checkRemainingInput
+  repeat' (first | split | dsimp only)
+  all_goals first
+    | exact Int.le_refl _
+    | exact greater_le_left _ _
+
+theorem merge_le (err x : Sev) : (if x.toInt ≤ Sev.usermsg.toInt then err.greater x else err).toInt ≤ err.toInt := by
+  split
+  · exact greater_le_left _ _
+  · exact Int.le_refl _
+
+theorem readAttrs_sev_le {F} (env : Env F) (strict : Bool) (attrs : List AttrD)
+    (err : Sev) (c : Byte) (s : IStream) (r : IR F) (h : readAttrs env strict attrs err c s = .ok r) : r.sev.toInt ≤ err.toInt := by
+  fun_induction readAttrs env strict attrs err c s generalizing r
+  case case1 err c s err1 =>
+    simp only [bind, Except.bind, pure, Except.pure] at h
+    split at h
+    · cases h
+    · cases h; exact greater_le_left _ _
+  case case2 =>
+    simp only [pure, Except.pure] at h
+    cases h
+    dsimp only
+    split
+    · exact greater_le_left _ _
+    · exact Int.le_refl _
+  case case3 ih => exact ih r h
+  case case4 a rest err c s s1 hred ih2 ih1 =>
+    cases hx : attrSTEPread env strict a s1 with
+    | error e => simp [hx, bind, Except.bind] at h
+    | ok x =>
+      obtain ⟨sev, v, s2⟩ := x
+      simp only [hx, bind, Except.bind] at h
+      generalize hp : shiftInto c s2 = p at h
+      obtain ⟨c2, s3⟩ := p
+      dsimp only at h
+      have hm := merge_le err sev
+      split at h
+      · generalize hq : checkRemainingInput env.lex (some attrDelims) s3
+          (if sev.toInt ≤ Sev.usermsg.toInt then err.greater sev else err) = q at h
+        have hc := cri_sev_le env.lex (some attrDelims) s3 (if sev.toInt ≤ Sev.usermsg.toInt then err.greater sev else err)
+        rw [hq] at hc
+        obtain ⟨s4, err2⟩ := q
+        dsimp only at h hc
+        split at h
+        · simp only [pure, Except.pure] at h; cases h; exact Int.le_trans hc hm
+        · split at h
+          · simp only [pure, Except.pure] at h; cases h; exact Int.le_trans hc hm
+          · cases hv : readAttrs env strict rest err2 c2 s4 with
+            | error e => simp [hv] at h
+            | ok v2 =>
+              simp only [hv, pure, Except.pure] at h
+              cases h
+              exact Int.le_trans (ih2 c2 s4 err2 v2 hv) (Int.le_trans hc hm)
+      · split at h
+        · simp only [pure, Except.pure] at h
+          cases h
+          dsimp only
+          split
+          · exact Int.le_trans (greater_le_left _ _) hm
+          · exact hm
+        · cases hv : readAttrs env strict rest (if sev.toInt ≤ Sev.usermsg.toInt then err.greater sev else err) c2 s3 with
+          | error e => simp [hv] at h
+          | ok v2 =>
+            simp only [hv, pure, Except.pure] at h
+            cases h
+            exact Int.le_trans (ih1 sev c2 s3 v2 hv) hm
+
+/-- **instance level**: whatever stands in the parameter list, the severity `SDAI_Application_instance::STEPread` has
+    accumulated never improves while the remaining attributes are read (all attribute lists, all inputs). -/
+theorem C03_instance_severity_never_improves {F} (env : Env F) (strict : Bool) (attrs : List AttrD)
+    (err : Sev) (c : Byte) (s : IStream) (r : IR F) (h : readAttrs env strict attrs err c s = .ok r) :
+    r.sev.toInt ≤ err.toInt := readAttrs_sev_le env strict attrs err c s r h
+
+/-- one step of the attribute loop: the result is at least as severe as the accumulated severity merged with what
+    the attribute reader reported -/
+theorem readAttrs_cons_le {F} (env : Env F) (strict : Bool) (a : AttrD) (rest : List AttrD)
+    (err : Sev) (c : Byte) (s : IStream) (r : IR F) (sev : Sev) (v : MVal F) (s2 : IStream)
+    (hred : a.redefining = false)
+    (ha : attrSTEPread env strict a (readTokenSeparator s) = .ok (sev, v, s2))
+    (h : readAttrs env strict (a :: rest) err c s = .ok r) :
+    r.sev.toInt ≤ (if sev.toInt ≤ Sev.usermsg.toInt then err.greater sev else err).toInt := by
+  unfold readAttrs at h
+  simp only [hred, Bool.false_eq_true, if_false, ha, bind, Except.bind] at h
+  generalize hp : shiftInto c s2 = p at h
+  obtain ⟨c2, s3⟩ := p
+  dsimp only at h
+  split at h
+  · generalize hq : checkRemainingInput env.lex (some attrDelims) s3
+      (if sev.toInt ≤ Sev.usermsg.toInt then err.greater sev else err) = q at h
+    have hc := cri_sev_le env.lex (some attrDelims) s3 (if sev.toInt ≤ Sev.usermsg.toInt then err.greater sev else err)
+    rw [hq] at hc
+    obtain ⟨s4, err2⟩ := q
+    dsimp only at h hc
+    split at h
+    · simp only [pure, Except.pure] at h; cases h; exact hc
+    · split at h
+      · simp only [pure, Except.pure] at h; cases h; exact hc
+      · cases hv : readAttrs env strict rest err2 c2 s4 with
+        | error e => simp [hv] at h
+        | ok v2 =>
+          simp only [hv, pure, Except.pure] at h
+          cases h
+          exact Int.le_trans (readAttrs_sev_le env strict rest err2 c2 s4 v2 hv) hc
+  · split at h
+    · simp only [pure, Except.pure] at h
+      cases h
+      dsimp only
+      split
+      · exact greater_le_left _ _
+      · exact Int.le_refl _
+    · cases hv : readAttrs env strict rest (if sev.toInt ≤ Sev.usermsg.toInt then err.greater sev else err) c2 s3 with
+      | error e => simp [hv] at h
+      | ok v2 =>
+        simp only [hv, pure, Except.pure] at h
+        cases h
+        exact readAttrs_sev_le env strict rest _ c2 s3 v2 hv
+
+/-- **attribute → instance**: at whatever point of the parameter list the reader stands (`err`, `c`, `s` arbitrary), if
+    `STEPattribute::STEPread` of the next attribute reports a severity at or below USERMSG, the instance's result is at
+    least that severe — whatever follows in the file. -/
+theorem C03_attribute_error_reaches_instance {F} (env : Env F) (strict : Bool) (a : AttrD) (rest : List AttrD)
+    (err : Sev) (c : Byte) (s : IStream) (r : IR F) (sev : Sev) (v : MVal F) (s2 : IStream)
+    (hred : a.redefining = false)
+    (ha : attrSTEPread env strict a (readTokenSeparator s) = .ok (sev, v, s2))
+    (hs : sev.toInt ≤ Sev.usermsg.toInt)
+    (h : readAttrs env strict (a :: rest) err c s = .ok r) : r.sev.toInt ≤ sev.toInt := by
+  have h1 := readAttrs_cons_le env strict a rest err c s r sev v s2 hred ha h
+  rw [if_pos hs] at h1
+  exact Int.le_trans h1 (greater_le_right _ _)
+
+/-- **too many parameters**: when every attribute has been read and the list has not been closed, the instance's
+    severity is INPUT_ERROR or worse, whatever the extra parameters are. -/
+theorem C03_too_many_parameters_detected {F} (env : Env F) (strict : Bool) (err : Sev) (c : Byte) (s : IStream) (r : IR F)
+    (h : readAttrs env strict [] err c s = .ok r) : r.sev.toInt ≤ Sev.inputError.toInt := by
+  simp only [readAttrs, bind, Except.bind] at h
+  split at h
+  · cases h
+  · simp only [pure, Except.pure] at h
+    cases h
+    exact greater_le_right _ _
+
+/-- **too few parameters**: when the list is closed after an attribute although a non-redefining attribute is still
+    to come, the instance's severity is WARNING or worse. -/
+theorem C03_too_few_parameters_detected {F} (env : Env F) (strict : Bool) (a b : AttrD) (rest : List AttrD)
+    (err : Sev) (c : Byte) (s : IStream) (r : IR F) (sev : Sev) (v : MVal F) (s2 : IStream)
+    (hred : a.redefining = false) (hb : b.redefining = false)
+    (ha : attrSTEPread env strict a (readTokenSeparator s) = .ok (sev, v, s2))
+    (hclose : (shiftInto c s2).1 = 41)
+    (h : readAttrs env strict (a :: b :: rest) err c s = .ok r) : r.sev.toInt ≤ Sev.warning.toInt := by
+  unfold readAttrs at h
+  simp only [hred, Bool.false_eq_true, if_false, ha, bind, Except.bind] at h
+  generalize hp : shiftInto c s2 = p at h hclose
+  obtain ⟨c2, s3⟩ := p
+  dsimp only at h hclose
+  subst hclose
+  simp only [pure, Except.pure] at h
+  have hmc : missingCheck (b :: rest) = true := by unfold missingCheck; rw [hb]; rfl
+  have e1 : (!((41 : Byte) == 44 || (41 : Byte) == 41)) = false := by decide
+  have e2 : ((41 : Byte) == 41) = true := by decide
+  rw [e1] at h
+  simp only [Bool.false_eq_true, if_false, e2, if_true, hmc] at h
+  cases h
+  exact greater_le_right _ _
+
+theorem appendEntityError_le (e s : Sev) : (appendEntityError e s).toInt ≤ e.toInt := by
+  unfold appendEntityError
+  split
+  · exact Int.le_refl _
+  · exact greater_le_left _ _
+
+/-- a severity worse than a user message handed to `AppendEntityErrorMsg` makes the file's severity worse than one -/
+theorem appendEntityError_bad (e s : Sev) (h : s.toInt < Sev.usermsg.toInt) :
+    (appendEntityError e s).toInt < Sev.usermsg.toInt := by
+  cases e <;> cases s <;> revert h <;> decide
+
+/-- the invariant of pass 2: the file's severity is at least as bad as every severity reported so far (floored at
+    WARNING as `AppendEntityErrorMsg` does), and never better than at the start -/
+def Inv {F} (e0 : Sev) (st : P2 F) : Prop :=
+  st.fileErr.toInt ≤ e0.toInt ∧ ∀ sv ∈ st.reported, sv.toInt < Sev.usermsg.toInt → st.fileErr.toInt < Sev.usermsg.toInt
+
+theorem applyOutcome_fileErr {F} (st : P2 F) (o : IOut F) :
+    (applyOutcome st o).fileErr = (match o.reported with | some sv => appendEntityError st.fileErr sv | none => st.fileErr) := by
+  unfold applyOutcome
+  dsimp only
+  cases o.left with
+  | none => rfl
+  | some sev =>
+    dsimp only
+    split
+    · rfl
+    · split
+      · rfl
+      · split <;> rfl
+
+theorem applyOutcome_reported {F} (st : P2 F) (o : IOut F) :
+    (applyOutcome st o).reported = (match o.reported with | some sv => sv :: st.reported | none => st.reported) := by
+  unfold applyOutcome
+  dsimp only
+  cases o.left with
+  | none => rfl
+  | some sev =>
+    dsimp only
+    split
+    · rfl
+    · split
+      · rfl
+      · split <;> rfl
+
+theorem inv_apply {F} (e0 : Sev) (st : P2 F) (o : IOut F) (h : Inv e0 st) : Inv e0 (applyOutcome st o) := by
+  obtain ⟨h1, h2⟩ := h
+  unfold Inv
+  rw [applyOutcome_fileErr, applyOutcome_reported]
+  cases o.reported with
+  | none => exact ⟨h1, h2⟩
+  | some sv =>
+    refine ⟨Int.le_trans (appendEntityError_le _ _) h1, ?_⟩
+    intro x hx hb
+    rcases List.mem_cons.mp hx with rfl | hx
+    · exact appendEntityError_bad _ _ hb
+    · exact Int.lt_of_le_of_lt (appendEntityError_le _ _) (h2 x hx hb)
+
+theorem inv_setS {F} (e0 : Sev) (st : P2 F) (s : IStream) (h : Inv e0 st) : Inv e0 { st with s := s } := h
+
+theorem loop_inv {F} (ops : FloatOps F) (lex : LexCfg) (cfg : RWCfg) (d : Dict) (strict : Bool) (e0 : Sev)
+    (fuel : Nat) : ∀ (st : P2 F) (endsec : Bool) (st' : P2 F),
+    readData2Loop ops lex cfg d strict fuel st endsec = .ok st' → Inv e0 st → Inv e0 st' := by
+  induction fuel with
+  | zero => intro st endsec st' h; simp [readData2Loop, throw, throwThe, MonadExceptOf.throw] at h
+  | succ n ih =>
+    intro st endsec st' h hi
+    unfold readData2Loop at h
+    split at h
+    · -- the body after the `#` has been found (or the section has ended)
+      have body : ∀ (x : Byte × Bool × IStream),
+          (match x with
+            | (_, endsec1, s3) =>
+              if endsec1 = true then readData2Loop ops lex cfg d strict n { st with s := s3 } true
+              else do
+                let o ← readInstance ops lex cfg d strict { st with s := s3 }
+                let st2 := applyOutcome st o
+                let (es, s5) := foundEndSec st2.s
+                readData2Loop ops lex cfg d strict n { st2 with s := s5 } es) = .ok st' → Inv e0 st' := by
+        intro x hx
+        obtain ⟨a, e1, s3⟩ := x
+        dsimp only at hx
+        split at hx
+        · exact ih _ _ _ hx hi
+        · simp only [bind, Except.bind] at hx
+          split at hx
+          · cases hx
+          · rename_i o ho
+            exact ih _ _ _ hx (inv_apply e0 st o hi)
+      dsimp only at h
+      split at h
+      · simp only [bind, Except.bind] at h
+        split at h
+        · cases h
+        · exact body _ h
+      · simp only [bind, Except.bind, pure, Except.pure, Bool.false_eq_true, if_false] at h
+        split at h
+        · cases h
+        · rename_i o ho
+          exact ih _ _ _ h (inv_apply e0 st o hi)
+    · simp only [pure, Except.pure] at h
+      cases h
+      exact hi
+
+theorem finalVerdict_le (e2 : Sev) (m k b : Bool) : (finalVerdict e2 m k b).1.toInt ≤ e2.toInt := by
+  cases e2 <;> cases m <;> cases k <;> cases b <;> decide
+
+theorem finalVerdict_mismatch (e2 : Sev) (k b : Bool) : (finalVerdict e2 true k b).1.toInt ≤ Sev.warning.toInt := by
+  cases e2 <;> cases k <;> cases b <;> decide
+
+/-- what `readDataSection` guarantees about its result, in terms of the two passes -/
+theorem section_spec {F} (ops : FloatOps F) (lex : LexCfg) (cfg : RWCfg) (d : Dict) (strict skipws : Bool) (bytes : List Byte)
+    (r : FileResult F) (h : readDataSection ops lex cfg d strict skipws bytes = .ok r) :
+    ∃ (p2 : P2 F), Inv (if r.notCreated > 0 then Sev.warning else Sev.null) p2 ∧ r.reported = p2.reported ∧
+      r.invalid = p2.invalid ∧
+      r.sev.toInt ≤ (if p2.invalid > 0 then p2.fileErr.greater .warning else p2.fileErr).toInt ∧
+      (r.created ≠ r.valid → r.sev.toInt ≤ Sev.warning.toInt) := by
+  unfold readDataSection at h
+  simp only [bind, Except.bind] at h
+  split at h
+  · cases h
+  · rename_i p1 hp1
+    split at h
+    · cases h
+    · rename_i p2 hp2
+      have hinv := loop_inv ops lex cfg d strict (if p1.notCreated > 0 then Sev.warning else Sev.null) _ _ _ _ hp2
+        ⟨Int.le_refl _, by intro sv hsv; cases hsv⟩
+      simp only [pure, Except.pure] at h
+      cases h
+      refine ⟨p2, hinv, rfl, rfl, finalVerdict_le _ _ _ _, ?_⟩
+      intro hne
+      dsimp only at hne ⊢
+      have : (p1.count != p2.valid) = true := by simpa using hne
+      rw [this]
+      exact finalVerdict_mismatch _ _ _
+
+theorem lt_usermsg_exit (e : Sev) (h : e.toInt < Sev.usermsg.toInt) : exitStatus e = 1 := by
+  cases e <;> revert h <;> decide
+
+theorem le_warning_lt (e : Sev) (h : e.toInt ≤ Sev.warning.toInt) : e.toInt < Sev.usermsg.toInt := by
+  cases e <;> revert h <;> decide
+
+/-- **detection, file level (1)**: whenever pass 2 hands `AppendEntityErrorMsg` a severity worse than a user message —
+    for any instance of the file, at any point — the read ends with a severity worse than a user message and p21read's
+    exit rule gives 1.  All files, all dictionaries. -/
+theorem C03_reported_error_fails_file {F} (ops : FloatOps F) (lex : LexCfg) (cfg : RWCfg) (d : Dict) (strict skipws : Bool)
+    (bytes : List Byte) (r : FileResult F) (h : readDataSection ops lex cfg d strict skipws bytes = .ok r)
+    (sv : Sev) (hm : sv ∈ r.reported) (hb : sv.toInt < Sev.usermsg.toInt) :
+    r.sev.toInt < Sev.usermsg.toInt ∧ exitStatus r.sev = 1 := by
+  obtain ⟨p2, ⟨_, h2⟩, hr, _, hs, _⟩ := section_spec ops lex cfg d strict skipws bytes r h
+  have hf : p2.fileErr.toInt < Sev.usermsg.toInt := h2 sv (hr ▸ hm) hb
+  have : r.sev.toInt < Sev.usermsg.toInt := by
+    refine Int.lt_of_le_of_lt hs ?_
+    split
+    · exact Int.lt_of_le_of_lt (greater_le_left _ _) hf
+    · exact hf
+  exact ⟨this, lt_usermsg_exit _ this⟩
+
+/-- **detection, file level (2)**: an instance that pass 1 could not create (unknown or abstract keyword, illegal
+    complex combination, duplicate id, missing `=`) fails the file. -/
+theorem C03_not_created_fails_file {F} (ops : FloatOps F) (lex : LexCfg) (cfg : RWCfg) (d : Dict) (strict skipws : Bool)
+    (bytes : List Byte) (r : FileResult F) (h : readDataSection ops lex cfg d strict skipws bytes = .ok r)
+    (hn : r.notCreated > 0) : r.sev.toInt < Sev.usermsg.toInt ∧ exitStatus r.sev = 1 := by
+  obtain ⟨p2, ⟨h1, _⟩, _, _, hs, _⟩ := section_spec ops lex cfg d strict skipws bytes r h
+  rw [if_pos hn] at h1
+  have hf : p2.fileErr.toInt < Sev.usermsg.toInt := le_warning_lt _ h1
+  have : r.sev.toInt < Sev.usermsg.toInt := by
+    refine Int.lt_of_le_of_lt hs ?_
+    split
+    · exact Int.lt_of_le_of_lt (greater_le_left _ _) hf
+    · exact hf
+  exact ⟨this, lt_usermsg_exit _ this⟩
+
+/-- **detection, file level (3)**: an instance counted invalid in pass 2 (not found from pass 1, duplicate, severity
+    worse than a user message left on the object) fails the file. -/
+theorem C03_invalid_fails_file {F} (ops : FloatOps F) (lex : LexCfg) (cfg : RWCfg) (d : Dict) (strict skipws : Bool)
+    (bytes : List Byte) (r : FileResult F) (h : readDataSection ops lex cfg d strict skipws bytes = .ok r)
+    (hn : r.invalid > 0) : r.sev.toInt < Sev.usermsg.toInt ∧ exitStatus r.sev = 1 := by
+  obtain ⟨p2, _, _, hi, hs, _⟩ := section_spec ops lex cfg d strict skipws bytes r h
+  rw [hi] at hn
+  rw [if_pos hn] at hs
+  have : r.sev.toInt < Sev.usermsg.toInt := le_warning_lt _ (Int.le_trans hs (greater_le_right _ _))
+  exact ⟨this, lt_usermsg_exit _ this⟩
+
+/-- **detection, file level (4)**: fewer valid instances after pass 2 than instances created in pass 1 fails the file. -/
+theorem C03_count_mismatch_fails_file {F} (ops : FloatOps F) (lex : LexCfg) (cfg : RWCfg) (d : Dict) (strict skipws : Bool)
+    (bytes : List Byte) (r : FileResult F) (h : readDataSection ops lex cfg d strict skipws bytes = .ok r)
+    (hn : r.created ≠ r.valid) : r.sev.toInt < Sev.usermsg.toInt ∧ exitStatus r.sev = 1 := by
+  obtain ⟨p2, _, _, _, _, hm⟩ := section_spec ops lex cfg d strict skipws bytes r h
+  have := le_warning_lt _ (hm hn)
+  exact ⟨this, lt_usermsg_exit _ this⟩
+
+/-! ### the hypotheses are satisfiable: a string where an INTEGER is required -/
+def exDict : Dict :=
+  { entities := [{ name := "A", attrs := [{ name := "x", ty := .one .integer, optional := false }], ancestors := ["A"] }],
+    selects := [], complexSets := [] }
+def exRun : M (FileResult Nat) :=
+  readDataSection dblOps Generated.rwLexCfg Generated.rwCfg exDict false false
+    (stringToBytes "#1=A('q');ENDSEC;END-ISO-10303-21;")
+
+example : (match exRun with | .ok r => r.reported | .error _ => []) = [Sev.warning] := by decide
+example : (match exRun with | .ok r => exitStatus r.sev | .error _ => 0) = 1 := by decide
 
 end StepModel.P21.C03
